@@ -26,7 +26,8 @@ const (
 // zone names of the simulated database (built by the orchestrator under $ZONEINFO)
 var simZonesGood = []string{"Sim/Shanghai", "Sim/NewYork", "Sim/LordHowe", "Sim/Kathmandu", "UTC", "Asia/Shanghai", "Europe/London", "",
 	"Etc/GMT+5", "Etc/GMT-3", "Etc/GMT+12", "Etc/GMT-14", "Etc/GMT", "America/St_Johns", "Asia/Kolkata", "Pacific/Chatham",
-	"America/Argentina/Buenos_Aires", "America/Indiana/Knox", "America/Kentucky/Louisville", "America/North_Dakota/Center", "EST5EDT", "Local"}
+	"America/Argentina/Buenos_Aires", "America/Indiana/Knox", "America/Kentucky/Louisville", "America/North_Dakota/Center", "EST5EDT", "Local",
+	"EST", "MST", "HST", "CET", "EET", "WET", "MET", "PST8PDT", "CST6CDT", "MST7MDT", "GB", "NZ", "Japan", "Cuba", "Egypt", "Israel", "Iran", "GMT", "Zulu"}
 var simZonesBad = []string{"Sim/Missing", "Sim/Empty", "Sim/Torn", "Sim/Garbage", "No/Such_Zone", "../etc/passwd", "Sim"}
 
 type clockSample struct {
@@ -78,6 +79,9 @@ func clampUnix(u int64) int64 {
 }
 
 func (w *clockWorld) randomInstant(s *Stream) time.Time {
+	if s.Intn(40) == 0 {
+		return time.Time{} // the zero time, as a host hands over a field that was never set
+	}
 	var u int64
 	switch s.Intn(8) {
 	case 0: // near the epoch
@@ -242,20 +246,22 @@ func (w *clockWorld) opNow(s *Stream) {
 	// toDay: local midnight of the civil date of some instant of the bracket
 	okDay := false
 	var cands []string
-	// the bracket spans at most a few days: try the day of lo, of hi and the days between
-	for x, n := lo, 0; n < 6; n++ {
-		for _, u := range midnightOf(x, w.loc) {
+	// every civil day from the day of lo to the day of hi (stepping by 24 hours would skip a
+	// day that a zone transition made shorter)
+	fl, fh := civilOf(lo.In(w.loc)), civilOf(hi.In(w.loc))
+	dlo, dhi := daysFromCivil(fl.Y, fl.M, fl.D), daysFromCivil(fh.Y, fh.M, fh.D)
+	for d := dlo; d <= dhi; d++ {
+		if d > dlo+40 && d < dhi { // a jump over many days: the ends suffice for the message, all days count
+			if t.Nanosecond() == 0 && containsInt64(resolveLocal(d*86400, w.loc), t.Unix()) {
+				okDay = true
+			}
+			continue
+		}
+		for _, u := range resolveLocal(d*86400, w.loc) {
 			cands = append(cands, time.Unix(u, 0).In(w.loc).Format(time.RFC3339))
 			if t.Unix() == u && t.Nanosecond() == 0 {
 				okDay = true
 			}
-		}
-		if !x.Before(hi) {
-			break
-		}
-		x = x.Add(24 * time.Hour)
-		if x.After(hi) {
-			x = hi
 		}
 	}
 	if !okDay {
